@@ -171,6 +171,8 @@ func c14TypedValue(rng *core.Rng, depth int) pv {
 }
 
 const c14Src = `import "fmt"
+import "golang.org/x/exp/maps"
+import "golang.org/x/exp/slices"
 type P struct { X int; Name string; F float64; B byte; Ok bool; U uint32 }
 type Q struct { A int8; S string }
 func p1(a any) { println(a) }
@@ -193,6 +195,18 @@ func mkBoth(a int) []any { return []any{&BA{A: a}, &AB{B: a}} }
 func mapdel(m map[string]int, k1 string, k2 string) map[string]int { delete(m, k1); delete(m, k2); return m }
 func mapdelf(m map[float64]string, k1 float64, k2 float64) map[float64]string { delete(m, k1); delete(m, k2); return m }
 func wrapm(m map[string]int) []map[string]int { return []map[string]int{m} }
+func nestI(s []int) any { return map[string][][]int{"k": {s[:]}} }
+func nestI2(s []int) any { return [][][]int{{s[0:len(s)]}, {s[1:]}} }
+func nestI3(s []int) any { t := append(s[:0], s...); return []any{s[:], [][]int{t[:len(t)]}} }
+func nestF(s []float64) any { return []map[int][]float64{{7: s[:]}} }
+func nestS(s []string) any { return [][][]string{{s[:], s[:1]}} }
+func cloneI(m map[int]string) any { return maps.Clone(m) }
+func cloneF(m map[float64]string) any { c := maps.Clone(m); return []any{c, len(c)} }
+func cloneB(m map[bool]int) any { return maps.Clone(m) }
+func cloneU(m map[uint8]string) any { return map[string]map[uint8]string{"c": maps.Clone(m)} }
+func keysI(m map[int]string) any { k := maps.Keys(m); return [][]int{k} }
+func keysU(m map[uint8]string) any { return maps.Keys(m) }
+func delI(s []int) any { return [][]int{slices.Delete(append([]int{9}, s...), 0, 1)} }
 `
 
 type c14Case struct {
@@ -234,6 +248,60 @@ func c14One(w *c14Worker, seed int64, idx int) (string, c14Case, bool) {
 	cs := c14Case{Seed: seed, Idx: idx}
 	mismatch := func(what, want, got string) string {
 		return fmt.Sprintf("%s: Go prints %q, goatlang %q", what, want, got)
+	}
+	if rng.Chance(1, 12) {
+		// values that script operations derived from host-supplied ones (whole-range slice expressions, clones, key
+		// lists, deletions), nested two and three containers deep
+		cs.Kind = "derived"
+		n := rng.Range(1, 4)
+		ints := make([]int32, n)
+		var iv []goatlang.Value
+		for i := range ints {
+			ints[i] = int32(rng.Intn(200) - 100)
+			iv = append(iv, goatlang.Int32(ints[i]))
+		}
+		fl := []float64{c14Float(rng), 0.5}
+		strs := []string{core.Pick(rng, []string{"a", "x y", "", "é"}), "b"}
+		ki, kf, ku, kb := int32(rng.Intn(99)-50), c14Float(rng), uint8(rng.Intn(256)), rng.Bool()
+		if kf != kf {
+			kf = 1.5 // (NaN keys are outside the map property)
+		}
+		type dc struct {
+			fn   string
+			arg  goatlang.Value
+			want any
+		}
+		isl := goatlang.NewSlice(goatlang.TypeInt32, iv)
+		all := []dc{
+			{"nestI", isl, map[string][][]int32{"k": {ints}}},
+			{"nestI2", isl, [][][]int32{{ints}, {ints[1:]}}},
+			{"nestI3", isl, []any{ints, [][]int32{ints}}},
+			{"nestF", goatlang.NewSlice(goatlang.TypeFloat64, []goatlang.Value{goatlang.Float64(fl[0]), goatlang.Float64(fl[1])}), []map[int][]float64{{7: fl}}},
+			{"nestS", goatlang.NewSlice(goatlang.TypeString, []goatlang.Value{goatlang.String(strs[0]), goatlang.String(strs[1])}), [][][]string{{strs, strs[:1]}}},
+			{"cloneI", goatlang.NewMap(goatlang.TypeInt32, goatlang.TypeString, []goatlang.Value{goatlang.Int32(ki), goatlang.String("seven")}), map[int32]string{ki: "seven"}},
+			{"cloneF", goatlang.NewMap(goatlang.TypeFloat64, goatlang.TypeString, []goatlang.Value{goatlang.Float64(kf), goatlang.String("f")}), []any{map[float64]string{kf: "f"}, 1}},
+			{"cloneB", goatlang.NewMap(goatlang.TypeBool, goatlang.TypeInt32, []goatlang.Value{goatlang.Bool(kb), goatlang.Int32(3)}), map[bool]int32{kb: 3}},
+			{"cloneU", goatlang.NewMap(goatlang.TypeUint8, goatlang.TypeString, []goatlang.Value{goatlang.Uint8(ku), goatlang.String("u")}), map[string]map[uint8]string{"c": {ku: "u"}}},
+			{"keysI", goatlang.NewMap(goatlang.TypeInt32, goatlang.TypeString, []goatlang.Value{goatlang.Int32(ki), goatlang.String("s")}), [][]int32{{ki}}},
+			{"keysU", goatlang.NewMap(goatlang.TypeUint8, goatlang.TypeString, []goatlang.Value{goatlang.Uint8(ku), goatlang.String("s")}), []uint8{ku}},
+			{"delI", isl, [][]int32{ints}},
+		}
+		d := all[rng.Intn(len(all))]
+		cs.Desc = []string{d.fn, fmt.Sprint(d.want)}
+		_, rets, e := w.out(d.fn, 1, d.arg)
+		if e != "" || len(rets) != 1 {
+			return "derived value " + d.fn + ": " + e, cs, true
+		}
+		got, _, e := w.out("f1", 0, rets[0])
+		if want := fmt.Sprintln(d.want); e != "" || got != want {
+			return mismatch("fmt.Println of the value "+d.fn+" built", want, got+e), cs, true
+		}
+		if got, _, e := w.out("sp", 1, rets[0]); e != "" {
+			return "fmt.Sprint of the value " + d.fn + " built: " + e, cs, true
+		} else {
+			_ = got
+		}
+		return "", cs, false
 	}
 	switch k := rng.Intn(10); {
 	case k < 3: // Value.String of host-built values
@@ -572,7 +640,7 @@ func c14RandCycle(rng *core.Rng) string {
 }
 
 func runC14(r *core.Run) {
-	r.SetRule("values of every supported kind (bool; int32/int8/uint8/uint32 boundaries; float64 classes: +-0, +-Inf, NaN, subnormal, 1e20/1e21, 1e-4/1e-5, 2^53, shortest-representation stress values, random bit patterns; strings incl. spaces, newlines, quotes, invalid UTF-8; slices nested to depth 5; mixed []any; single-entry maps, also ones that are single-entry because the other entries were deleted; typed nil slice/map; struct references built by the host with NewStruct; struct references, also after their type declaration ran several times in one VM) rendered through Value.String and through script println / fmt.Println with 1-4 operands / fmt.Print / fmt.Sprint with host-supplied operands; cyclic object graphs (fixed catalogue plus random rings through struct fields, slices, maps and []any) rendered in a child process. non-trivial = every case (each renders at least one value); distinct by value description")
+	r.SetRule("values of every supported kind (bool; int32/int8/uint8/uint32 boundaries; float64 classes: +-0, +-Inf, NaN, subnormal, 1e20/1e21, 1e-4/1e-5, 2^53, shortest-representation stress values, random bit patterns; strings incl. spaces, newlines, quotes, invalid UTF-8; slices nested to depth 5; mixed []any; single-entry maps, also ones that are single-entry because the other entries were deleted; typed nil slice/map; struct references built by the host with NewStruct; struct references, also after their type declaration ran several times in one VM) values that script operations derived from host-supplied ones (whole-range slice expressions, maps.Clone, maps.Keys, slices.Delete) nested two and three containers deep; rendered through Value.String and through script println / fmt.Println with 1-4 operands / fmt.Print / fmt.Sprint with host-supplied operands; cyclic object graphs (fixed catalogue plus random rings through struct fields, slices, maps and []any) rendered in a child process. non-trivial = every case (each renders at least one value); distinct by value description")
 	r.Assume("fmt.Sprint / Sprintln on the mirrored native value are the specification; multi-entry map order, nil pointers and nested struct references inside containers are not specified by the property and not judged; for cyclic graphs only termination and bounded size are judged")
 	n := r.N(20000, 800000)
 	core.Parallel((n+99)/100, func(chunk int) {
